@@ -146,6 +146,27 @@ def _new_sim(scn, data, ext, tstates, k0=0):
     sim.registers[25] = tstates
     return sim, tr
 
+def _wants_z80v2(scn):
+    # every second Z80 start snapshot is a version 2 file (a foreign recorder's): decided from fields already drawn,
+    # so that the other choices of the scenario keep their values
+    if 'z80v2' in scn:
+        return scn['z80v2']
+    return (sum(scn['reads']) + scn['tstates0'] + len(scn['frames'])) % 2 == 0
+
+def _z80_v3_to_v2(data):
+    """SkoolKit writes version 3 Z80 files (54-byte extra header).  -> the same machine state as a version 2 file
+    (23-byte extra header: PC, hardware mode, 0x7FFD, IF1 byte, flags, 0xFFFD, 16 AY registers; no T-state counter - the
+    input recording block carries T).  Hardware mode 4 (128K in v3) is 3 in v2."""
+    if len(data) < 87 or data[30] != 54 or data[31] != 0:
+        return data
+    hdr = bytearray(data[:55])
+    hdr[30] = 23
+    if hdr[34] == 4:
+        hdr[34] = 3
+    elif hdr[34] != 0:
+        return data
+    return bytes(hdr) + data[86:]
+
 def record(scn, wd, memptr0_at=()):
     """-> (rzx bytes, final state (get_state tuple), pairs [(ext, frames)], stats)"""
     st = {}
@@ -154,6 +175,9 @@ def record(scn, wd, memptr0_at=()):
     fname, extra = p10.write_start(start_scn, wd)
     with open(fname, 'rb') as f:
         sdata = f.read()
+    if scn['snap_fmt'] == 'z80' and _wants_z80v2(scn):
+        sdata = _z80_v3_to_v2(sdata)
+        st['z80v2_start_snapshot'] = 1
     sim, tr = _new_sim(scn, sdata, scn['snap_fmt'], scn['tstates0'])
     pairs = [[scn['snap_fmt'], sdata, scn['snap_compress'], scn['tstates0'], []]]
     specs = scn['frames']
